@@ -1,4 +1,164 @@
-/- Driver for C09 (stub: not built yet). -/
+/-
+Driver for C09.  One line = one composition tree (prefix notation) + one history of calls:
+
+  run <node> | <op> <op> ...
+  <node> ::= R tag a b c d                       recording leaf forecaster
+           | E agg n (name <node>){n}             EnsembleForecaster (agg = online: OnlineEnsembleForecaster)
+           | P n (T tag k m upd skip){n} <node>   TransformedTargetForecaster
+           | M sel n (name <node>){n}             MultiplexForecaster (sel = name | none)
+           | S n (name <node>){n} G tag p q       StackingForecaster
+  <op>   ::= fit <series> <fh> | upd <series> <T|F> | pred <fh>
+  series = l=v,l=v | -        fh = none | 1,2,3
+
+Answer: the outputs of the calls up to the first failing one (`ok` or the forecast or `E:kind`)
+joined by `;`, then ` # ` and the log of everything the recording leaves were handed (only when
+no call failed).
+-/
+import SkVerif.Model.Compose
+import SkVerif.Drv.Parse
 namespace SkVerif.Drv.C09
-def handle (_toks : List String) : String := "bad-op"
+open SkVerif SkVerif.Compose SkVerif.Drv
+
+inductive Node
+  | leaf (p : LeafP)
+  | ens (agg : Option Agg) (ms : List (String × Node))
+  | pipe (ts : List TrP) (f : Node)
+  | mux (sel : Option String) (ms : List (String × Node))
+  | stack (ms : List (String × Node)) (g : RegP)
+
+instance : Inhabited Forecaster := ⟨recF ⟨"", 0, 0, 0, 0⟩⟩
+
+partial def build : Node → Forecaster
+  | .leaf p => recF p
+  | .ens agg ms => ensemble agg (ms.map (·.1)) (ms.map (fun m => build m.2))
+  | .pipe ts f => pipeline (ts.map recT) (build f)
+  | .mux sel ms => mux sel (ms.map (·.1)) (ms.map (fun m => build m.2))
+  | .stack ms g => stacking (ms.map (·.1)) (ms.map (fun m => build m.2)) (recG g)
+
+def parseAgg? (s : String) : Option (Option Agg) :=
+  match s with
+  | "mean" => some (some .mean) | "median" => some (some .median) | "min" => some (some .min)
+  | "max" => some (some .max) | "online" => some (some .online) | "bad" => some none
+  | _ => none
+
+def parseTrs? : Nat → List String → Option (List TrP × List String)
+  | 0, toks => some ([], toks)
+  | n + 1, "T" :: tag :: k :: m :: upd :: skip :: rest => do
+      let k ← parseRat? k; let m ← parseRat? m; let upd ← parseBool? upd; let skip ← parseBool? skip
+      let (ts, rest') ← parseTrs? n rest
+      pure (⟨tag, k, m, upd, skip⟩ :: ts, rest')
+  | _, _ => none
+
+mutual
+partial def parseNode? : List String → Option (Node × List String)
+  | "R" :: tag :: a :: b :: c :: d :: rest => do
+      let a ← parseRat? a; let b ← parseRat? b; let c ← parseRat? c; let d ← parseRat? d
+      pure (.leaf ⟨tag, a, b, c, d⟩, rest)
+  | "E" :: agg :: n :: rest => do
+      let agg ← parseAgg? agg; let n ← parseNat? n
+      let (ms, rest') ← parseMembers? n rest
+      pure (.ens agg ms, rest')
+  | "P" :: n :: rest => do
+      let n ← parseNat? n
+      let (ts, rest') ← parseTrs? n rest
+      let (f, rest'') ← parseNode? rest'
+      pure (.pipe ts f, rest'')
+  | "M" :: sel :: n :: rest => do
+      let n ← parseNat? n
+      let (ms, rest') ← parseMembers? n rest
+      pure (.mux (if sel == "none" then none else some sel) ms, rest')
+  | "S" :: n :: rest => do
+      let n ← parseNat? n
+      let (ms, rest') ← parseMembers? n rest
+      match rest' with
+      | "G" :: tag :: p :: q :: rest'' => do
+          let p ← parseRat? p; let q ← parseRat? q
+          pure (.stack ms ⟨tag, p, q⟩, rest'')
+      | _ => none
+  | _ => none
+partial def parseMembers? : Nat → List String → Option (List (String × Node) × List String)
+  | 0, toks => some ([], toks)
+  | n + 1, name :: rest => do
+      let (nd, rest') ← parseNode? rest
+      let (ms, rest'') ← parseMembers? n rest'
+      pure ((name, nd) :: ms, rest'')
+  | _, _ => none
+end
+
+def parseSeries? (s : String) : Option Series :=
+  if s == "-" then some [] else
+  (s.splitOn ",").mapM (fun item =>
+    match item.splitOn "=" with
+    | [l, v] => do let l ← parseInt? l; let v ← parseRat? v; pure (l, v)
+    | _ => none)
+
+def parseFh? (s : String) : Option (Option Horizon) :=
+  if s == "none" then some none else (parseIntList? s).map some
+
+def parseOps? : List String → Option (List Op)
+  | [] => some []
+  | "fit" :: y :: fh :: rest => do
+      let y ← parseSeries? y; let fh ← parseFh? fh; let r ← parseOps? rest; pure (.fit y fh :: r)
+  | "upd" :: y :: up :: rest => do
+      let y ← parseSeries? y; let up ← parseBool? up; let r ← parseOps? rest; pure (.update y up :: r)
+  | "pred" :: fh :: rest => do
+      let fh ← parseFh? fh; let r ← parseOps? rest; pure (.predict fh :: r)
+  | _ => none
+
+def showErr : Err → String
+  | .notFitted => "E:notfitted" | .value => "E:value" | .type => "E:type" | .index => "E:index"
+  | .key => "E:key" | .other => "E:other:Exception"
+
+def showSeries (y : Series) : String :=
+  if y.isEmpty then "-" else ",".intercalate (y.map (fun p => s!"{p.1}={showRat p.2}"))
+
+def showOFh : Option Horizon → String
+  | none => "none"
+  | some f => showIntList f
+
+def showOBool : Option Bool → String
+  | none => "-"
+  | some b => showBool b
+
+def showRows (rows : List (List Rat)) : String :=
+  if rows.isEmpty then "-" else "_".intercalate (rows.map showRatList)
+
+def showEvent : Event → String
+  | .fc tag op y fh up => s!"F:{tag}:{op}:{showSeries y}:{showOFh fh}:{showOBool up}"
+  | .tr tag op z up => s!"T:{tag}:{op}:{showSeries z}:{showOBool up}"
+  | .rg tag op rows ys => s!"G:{tag}:{op}:{showRows rows}:{match ys with | none => "none" | some v => showRatList v}"
+
+def showOut : Option Series → String
+  | none => "ok"
+  | some p => showSeries p
+
+def showLog (l : Log) : String := if l.isEmpty then "-" else ";".intercalate (l.map showEvent)
+
+/-- `logs`: one log per call (reversed), printed separated by ` @ ` -/
+def runOps (F : Forecaster) : F.S → List Op → List String → List Log → String
+  | _, [], outs, logs =>
+      ";".intercalate outs.reverse ++ " # " ++ " @ ".intercalate (logs.reverse.map showLog)
+  | s, op :: ops, outs, logs =>
+    match F.step s op with
+    | .error e => ";".intercalate ((showErr e :: outs).reverse)
+    | .ok ((s', o), l) => runOps F s' ops (showOut o :: outs) (l :: logs)
+
+def splitBar : List String → List String → Option (List String × List String)
+  | _, [] => none
+  | acc, "|" :: rest => some (acc.reverse, rest)
+  | acc, t :: rest => splitBar (t :: acc) rest
+
+def handle (toks : List String) : String :=
+  match toks with
+  | "run" :: rest =>
+    match splitBar [] rest with
+    | none => "bad-op"
+    | some (treeToks, opToks) =>
+      match parseNode? treeToks, parseOps? opToks with
+      | some (nd, []), some ops =>
+        let F := build nd
+        runOps F F.init ops [] []
+      | _, _ => "bad-op"
+  | _ => "bad-op"
+
 end SkVerif.Drv.C09
